@@ -188,6 +188,88 @@ fn one_index(rep: &mut Report, rec: &mut Rec, len: usize, n: i64) {
         index_case(rep, rec, len, n, &json!(null), &format!("`{}`[{}]", arr(len), n));
     }
     index_case(rep, rec, len, n, &arr(len), &format!("@[{}]", n));
+    if (-9..=9).contains(&n) {
+        ragged_rows(rep, rec, len, n);
+    }
+    if len > 0 && len <= 40 {
+        // the index applied to the result of a stable sort with tied keys: position n of THAT order
+        let doc = Value::Array((0..len).map(|i| json!({"id": i, "k": (i * 7 + 3) % 4})).collect());
+        let mut order: Vec<usize> = (0..len).collect();
+        order.sort_by_key(|i| (i * 7 + 3) % 4);
+        let k = if n < 0 { len as i64 + n } else { n };
+        let want = if k >= 0 && (k as usize) < len { order[k as usize].to_string() } else { "N".to_string() };
+        for text in [format!("sort_by(@, &k)[{}].id", n), format!("sort_by(@, &k) | [{}].id", n), format!("(sort_by(@, &k))[{}].id", n)] {
+            rep.evaluations += 1;
+            let got = guarded(|| jmespath::compile(&text).and_then(|e| e.search(rcvar_of(&doc))));
+            let shown = match &got {
+                Ok(Ok(v)) if v.is_null() => "N".to_string(),
+                Ok(Ok(v)) => v.to_string(),
+                other => format!("{:?}", other.as_ref().map(|r| r.as_ref().map(|v| v.to_string()).map_err(|e| e.to_string()))),
+            };
+            if shown == want {
+                rep.count("agree_index_into_sorted");
+            } else {
+                rep.violation("C07/index-into-a-stable-sort-differs-from-rule", json!({"expression": text, "len": len, "expected_id": want, "got": shown}));
+            }
+        }
+    }
+}
+
+/// The index applied to every row of a table whose rows have different lengths — directly (a
+/// projection, which drops the rows that have no such element) and as the body of an expression
+/// reference (`map` keeps a null for them): each row decides for itself where `n` lands.
+fn ragged_rows(rep: &mut Report, rec: &mut Rec, len: usize, n: i64) {
+    let rows: Vec<Vec<i64>> = (0..=len % 9).map(|j| (0..((j * 5 + len) % 7) as i64).map(|v| v + 10 * j as i64).collect()).collect();
+    let doc = json!(rows);
+    let pick = |r: &Vec<i64>| -> Option<i64> {
+        let k = if n < 0 { r.len() as i64 + n } else { n };
+        if k >= 0 && (k as usize) < r.len() { Some(r[k as usize]) } else { None }
+    };
+    let want_proj = format!("[{}]", rows.iter().filter_map(pick).map(|v| v.to_string()).collect::<Vec<_>>().join(","));
+    let want_map = format!("[{}]", rows.iter().map(|r| pick(r).map(|v| v.to_string()).unwrap_or_else(|| "null".to_string())).collect::<Vec<_>>().join(","));
+    let firsts = format!("[{}]", {
+        let mut keyed: Vec<(i64, usize)> = rows.iter().enumerate().filter_map(|(i, r)| pick(r).map(|k| (k, i))).collect();
+        keyed.sort();
+        keyed.iter().map(|(_, i)| i.to_string()).collect::<Vec<_>>().join(",")
+    });
+    for (form, text, want) in [
+        ("ragged-proj", format!("@[*][{}]", n), want_proj.clone()),
+        ("ragged-map", format!("map(&[{}], @)", n), want_map.clone()),
+        ("ragged-expr", format!("@[*].{{v: @[{}]}}.v", n), want_proj.clone()),
+    ] {
+        rep.evaluations += 1;
+        let got = guarded(|| jmespath::compile(&text).and_then(|e| e.search(rcvar_of(&doc))));
+        let shown = match &got {
+            Ok(g) => show(g),
+            Err(p) => format!("panic:{}", p),
+        };
+        let _ = writeln!(rec.out, "R {} {} {} | {}", form, len, n, shown);
+        if shown == want {
+            rep.count("agree_ragged_rows");
+            rep.nontrivial(refimpl::rng::fnv(format!("R {} {} {}", form, len, n).as_bytes()));
+        } else {
+            rep.violation("C07/index-over-ragged-rows-differs-from-rule", json!({"expression": text, "rows": doc, "expected": want, "got": shown}));
+        }
+    }
+    // as a sort key: rows that have the element, ordered by it (every row has one when n is 0 / -1 and no row is empty)
+    if rows.iter().all(|r| pick(r).is_some()) && rows.len() > 1 {
+        let text = format!("sort_by(@, &[{}])[*][0]", n);
+        rep.evaluations += 1;
+        let got = guarded(|| jmespath::compile(&text).and_then(|e| e.search(rcvar_of(&doc))));
+        let mut keyed: Vec<(i64, usize)> = rows.iter().enumerate().map(|(i, r)| (pick(r).unwrap(), i)).collect();
+        keyed.sort();
+        let want = format!("[{}]", keyed.iter().map(|(_, i)| rows[*i][0].to_string()).collect::<Vec<_>>().join(","));
+        let shown = match &got {
+            Ok(g) => show(g),
+            Err(p) => format!("panic:{}", p),
+        };
+        if shown == want {
+            rep.count("agree_ragged_sort_key");
+        } else {
+            rep.violation("C07/index-over-ragged-rows-differs-from-rule", json!({"expression": text, "rows": doc, "expected": want, "got": shown}));
+        }
+    }
+    let _ = firsts;
 }
 
 fn index_case(rep: &mut Report, rec: &mut Rec, len: usize, n: i64, doc: &Value, text: &str) {
